@@ -454,7 +454,18 @@ def main():
     stats_all = []
     total_lines = 0
     harness_out = ""
-    outbase = os.path.join(BUILD, "run", prop + ("" if REPO == "/repo" else "-" + hashlib.sha1(REPO.encode()).hexdigest()[:8]))
+    # one scratch directory per run (property, tree, tier, pid): concurrent runs never share files; stale ones are removed
+    import atexit, shutil
+    runroot = os.path.join(BUILD, "run")
+    os.makedirs(runroot, exist_ok=True)
+    for d in os.listdir(runroot):
+        m = re.match(r"^(C\d\d)(-[0-9a-f]{8})?(-(quick|thorough)-(\d+))?$", d)
+        if m and m.group(1) == prop and (m.group(5) is None or not os.path.exists("/proc/" + m.group(5))):
+            shutil.rmtree(os.path.join(runroot, d), ignore_errors=True)
+    outbase = os.path.join(runroot, prop + ("" if REPO == "/repo" else "-" + hashlib.sha1(REPO.encode()).hexdigest()[:8])
+                           + "-%s-%d" % (tier, os.getpid()))
+    if not os.environ.get("VERIF_KEEP_RUN"):
+        atexit.register(lambda: shutil.rmtree(outbase, ignore_errors=True))
     brc, bout, binp = build_harness(prop, cfg, log)
     hooks = cfg.get("custom")
     if brc != 0:
